@@ -43,7 +43,11 @@ def check_equal(run):
         payload = {"a": a, "b": b, "driver_line": t[0],
                    "how": "build/bin/http -family equal -mode pair -case <file: a and b on two lines> | build/bin/http_model"}
         kv = dict(x.split("=") for x in head[2:] if "=" in x)
-        if head[1] == "equal" and kv.get("nodup") == "true" and kv.get("impl") != kv.get("spec"):
+        if head[1] == "route-equal":
+            run.violation("route-equal-wrong:" + H.h8(a + b), dict(payload, how="Route.Equal on the two routes a, b (name:path, hex)"),
+                          "Route.Equal(%s, %s) answers %s, the model and the specification (same name and same path) say %s" % (
+                              a, b, kv.get("impl"), kv.get("model")))
+        elif head[1] == "equal" and kv.get("nodup") == "true" and kv.get("impl") != kv.get("spec"):
             run.violation("equal-wrong:" + H.h8(a + b), payload,
                           "Config.Equal answers %s on a duplicate-free pair whose specification is %s" % (kv.get("impl"), kv.get("spec")))
         else:
@@ -63,7 +67,6 @@ def run(run):
         return
     eq_stats, eq_samples = check_equal(run)
     res = H.run_hist(run, "C13")
-    H.report_hist_common(run, res, "C13")
     for p in res["props"]:
         if p["ok"] or not p["prop"].startswith("c13-"):
             continue
@@ -71,6 +74,7 @@ def run(run):
         run.violation("%s:%s" % (p["prop"], H.script_shape(sc)),
                       {"script": sc, "verdict": p, "trace": H.trace_of(res, p["script"]), "how": H.REPLAY_HOW},
                       "history %s: %s fails on the implementation's observables: %s" % (p["script"], p["prop"], p["text"]))
+    H.report_hist_common(run, res, "C13")
     H.hist_coverage(run, res, "; plus check A: Config.Equal on every single-field difference, all 32 field combinations x 11 "
                               "route variants x 3 bases (both directions), every pair of route lists of length <= 2 over 5 names "
                               "(incl. names with spaces) x 3 paths, and PRNG-generated/mutated pairs (names with spaces, commas, "
@@ -100,7 +104,8 @@ def replay(path):
             return 1
         with tempfile.NamedTemporaryFile("w", suffix=".txt", delete=False) as f:
             f.write(rp["replay"]["a"] + "\n" + rp["replay"]["b"] + "\n")
-        rc, lines = H.harness(["-family", "equal", "-mode", "pair", "-case", f.name])
+        mode = "pair" if ";" in rp["replay"]["a"] else "routepair"
+        rc, lines = H.harness(["-family", "equal", "-mode", mode, "-case", f.name])
         os.unlink(f.name)
         mism, find, acc, stats, ok, err = H.model(lines)
         print("\n".join(lines + mism))
